@@ -734,7 +734,7 @@ def make_groups(rng, tier):
                 groups.append(dict(config=text, intent=intent, backend=backend, nobatch=False, now=T0, setup=setup, requests=reqs, gen=gen,
                                    tag="limit-%d-%s-%d" % (depth, drop, npre)))
     # (g) the handler's fallback for a store without EnqueueBatch (PostgresStore's method set)
-    for depth, drop in ((3, False), (2, True), (10000, False)):
+    for depth, drop in ((3, False), (5, False), (2, True), (10000, False)):
         for backend in ("memory", "sqlite"):
             text, intent = make_config(rng, 0, tier)
             text = text.replace("max_depth 10000", "max_depth %d" % depth).replace("drop_policy reject", "drop_policy %s" % ("drop_oldest" if drop else "reject"))
@@ -742,7 +742,8 @@ def make_groups(rng, tier):
             gen = Gen(rng, intent)
             setup = [dict(id="s00", route="/a", target="pull", recv=T0 - 9, payload_b64="", headers=None, cancel=False)]
             gen.id_num("s00")
-            reqs = [make_request(gen, False, 2, existing={"s00": "queued"}), make_request(gen, False, 4, existing={"s00": "queued"}),
+            # a batch that crosses the limit midway comes first (room for depth-1 items)
+            reqs = [make_request(gen, False, 4, existing={"s00": "queued"}), make_request(gen, False, 2, existing={"s00": "queued"}),
                     make_request(gen, True, 3, existing={"s00": "queued"}),
                     make_request(gen, False, 3, "bad_b64", 2, existing={"s00": "queued"}),
                     make_request(gen, False, 3, "existing_id", 1, existing={"s00": "queued"})]
